@@ -18,7 +18,7 @@ const XLS_REGIONS: [Rg; 5] = [((0, 0), (1, 1)), ((0, 25), (1, 26)), ((8, 51), (9
 fn rf(r: Rg) -> String { format!("{}:{}", a1(r.0 .0, r.0 .1), a1(r.1 .0, r.1 .1)) }
 
 #[derive(Clone, Debug)]
-struct TSpec { name: String, sheet: usize, rg: Rg, header: u32, totals: u32, columns: Vec<String>, explicit_counts: bool, shown: u8 }
+struct TSpec { name: String, sheet: usize, rg: Rg, header: u32, totals: u32, columns: Vec<String>, explicit_counts: bool, shown: u8, extras: bool }
 
 struct Case { bytes: Vec<u8>, sheets: Vec<String>, merges: Vec<Vec<Rg>>, tables: Vec<TSpec>, grids: Vec<Grid>, desc: serde_json::Value }
 
@@ -41,19 +41,21 @@ fn build(ch: &mut Chooser, fmt: &str) -> Case {
         for _ in 0..n { let i = ch.choose("merge-region", pool.len()); v.push(pool.remove(i)); }
         merges.push(v);
     }
-    let grids: Vec<Grid> = (0..nsheets).map(|i| if i == 0 { sheet_values() } else { let mut g = Grid::new(); g.insert((0, 0), Data::Float(5.0)); g.insert((2, 2), Data::String("z".into())); g }).collect();
+    // a sheet may declare merged regions and hold no value at all (merged, formatted, empty cells)
+    let second_empty = nsheets == 2 && ch.flag("second-sheet-holds-no-values");
+    let grids: Vec<Grid> = (0..nsheets).map(|i| if i == 0 { sheet_values() } else if second_empty { Grid::new() } else { let mut g = Grid::new(); g.insert((0, 0), Data::Float(5.0)); g.insert((2, 2), Data::String("z".into())); g }).collect();
     let mut tables = vec![];
     if fmt == "xlsx" {
         let nt = ch.choose("table-count", 3);
         for t in 0..nt {
-            let sheet = if nsheets == 2 && ch.flag("table-on-second-sheet") { 1 } else { 0 };
+            let sheet = if nsheets == 2 && !second_empty && ch.flag("table-on-second-sheet") { 1 } else { 0 };
             let placements: [Rg; 5] = [((1, 1), (4, 2)), ((0, 0), (3, 1)), ((4, 3), (8, 5)), ((20, 6), (23, 7)), ((1, 2), (5, 2))];
             let rg = placements[(ch.choose("table-placement", placements.len()) + t) % placements.len()];
             let header = 1 - ch.choose("table-header-rows", 2) as u32;
             let totals = ch.choose("table-totals-rows", 2) as u32;
             let ncols = (rg.1 .1 - rg.0 .1 + 1) as usize;
             let colnames = ["label", "a & b", "<amount>", "d"];
-            tables.push(TSpec { name: ["Table1", "Sales_2"][t].to_string(), sheet, rg, header, totals, columns: colnames[..ncols].iter().map(|s| s.to_string()).collect(), explicit_counts: ch.flag("table-explicit-default-counts"), shown: ch.choose("table-totalsRowShown-attribute(absent,1,0)", 3) as u8 });
+            tables.push(TSpec { name: ["Table1", "Sales_2"][t].to_string(), sheet, rg, header, totals, columns: colnames[..ncols].iter().map(|s| s.to_string()).collect(), explicit_counts: ch.flag("table-explicit-default-counts"), shown: ch.choose("table-totalsRowShown-attribute(absent,1,0)", 3) as u8, extras: ch.flag("table-part-with-autoFilter-calculated-column-style-info-and-x14-alt-text") });
         }
     }
     let desc = json!({"format": fmt, "sheets": sheets, "merges": merges.iter().map(|m| m.iter().map(|r| rf(*r)).collect::<Vec<_>>()).collect::<Vec<_>>(), "tables": tables.iter().map(|t| format!("{t:?}")).collect::<Vec<_>>()});
@@ -67,7 +69,7 @@ fn build(ch: &mut Chooser, fmt: &str) -> Case {
                 sh.tables.push(xlsx::XTable { name: t.name.clone(), display_name: t.name.clone(), rf: rf(t.rg),
                     header_rows: if t.header == 0 { Some(0) } else if t.explicit_counts { Some(1) } else { None },
                     totals_rows: if t.totals == 1 { Some(1) } else if t.explicit_counts { Some(0) } else { None },
-                    totals_row_shown: match t.shown { 0 => None, 1 => Some(true), _ => Some(false) }, columns: t.columns.clone() });
+                    totals_row_shown: match t.shown { 0 => None, 1 => Some(true), _ => Some(false) }, columns: t.columns.clone(), extras: t.extras });
             }
             b.sheets.push(sh);
         }
@@ -184,10 +186,10 @@ fn run_case(rep: &Report, ch: &mut Chooser, fmt: &str, local: &mut Vec<(u64, boo
 
 pub fn check(rep: &Report) {
     let t = crate::thorough(&rep.tier);
-    rep.rule("workbooks = 1-2 sheets x 0-3 merged regions per sheet drawn in every order from {A1:B2, Z1:AA2, AZ9:BA10, the last two rows/columns of the sheet, a 1-row wide region} (xls: one or two MERGECELLS records) x (xlsx) 0-2 tables at 5 placements (inside / over the edge of / outside the used range, single column) x header rows 0/1 x totals rows 0/1 x explicit default counts x table on either sheet x prefix; all choice vectors with <= d deviations; every API path of the statement; non-trivial = non-default; distinct by file bytes");
+    rep.rule("workbooks = 1-2 sheets x 0-3 merged regions per sheet drawn in every order from {A1:B2, Z1:AA2, AZ9:BA10, the last two rows/columns of the sheet, a 1-row wide region} (xls: one or two MERGECELLS records) x (xlsx) 0-2 tables at 5 placements (inside / over the edge of / outside the used range, single column) x header rows 0/1 x totals rows 0/1 x explicit default counts x the other elements Excel writes into a table part (autoFilter, calculated column, tableStyleInfo, x14:table alt text in extLst) x table on either sheet x a second sheet without values x prefix; all choice vectors with <= d deviations; every API path of the statement; non-trivial = non-default; distinct by file bytes");
     rep.assume("tables always keep at least one data row; table name == displayName");
     let stats = Mutex::new(Stats::default());
-    let dev = if t { 5 } else { 4 };
+    let dev = if t { 8 } else { 5 };
     ["xlsx", "xls"].par_iter().for_each(|fmt| {
         crate::engine::crumb::set_job(&format!("C17 format={fmt}"));
         let mut st = Stats::default();
